@@ -40,7 +40,9 @@ func c05get(idx int) c05case {
 		return c05case{Kind: "unknown", Req: grammar.Unknown(r, tok), DB: db}
 	case slot == nspec+1:
 		// two application executors: one registered under an upper-case name, one under a mixed-case name
-		name := rng.Pick(r, []string{"VERIFCMD", "verifcmd", "VerifCmd", "vErIfCmD", "VERIFMIXED", "verifmixed", "VerifMixed", "vErIfMiXeD"})
+		name := rng.Pick(r, []string{"VERIFCMD", "verifcmd", "VerifCmd", "vErIfCmD", "VERIFMIXED", "verifmixed", "VerifMixed", "vErIfMiXeD",
+			// a module-style name with non-letters (digits, dot, dash, colon, underscore)
+			"VERIF.CMD-2:X_Y", "verif.cmd-2:x_y", "Verif.cmd-2:X_y", "VERIF.cmd-2:x_Y", "vERIF.CMD-2:X_Y"})
 		args := []string{name}
 		for i := 0; i < r.Intn(5); i++ {
 			args = append(args, string(gen.BulkPayload(r, 30)))
@@ -124,6 +126,7 @@ func c05run(idx int) run.Result {
 	}
 	srv.RegisterExexutor("VERIFCMD", custom)
 	srv.RegisterExexutor("VerifMixed", custom)
+	srv.RegisterExexutor("Verif.Cmd-2:x_y", custom)
 	reqs := []resp.Value{resp.Cmd("SELECT", fmt.Sprint(c.DB)), c.Req}
 	stream, ends := encodeReqs(reqs)
 	before := time.Now()
